@@ -1,6 +1,7 @@
 //! C14 — a CONST has the value and type its expression would have at run time.
 //!
-//! Generated scenarios: a list of global `CONST` definitions and a list of definitions inside a SUB,
+//! Generated scenarios: a list of global `CONST` definitions and a list of definitions inside a SUB (every
+//! third scenario: a FUNCTION),
 //! over literals of all five types (at and around the type boundaries) and earlier constants (bare and
 //! suffixed), all operators (+ - * / MOD, comparisons, AND OR NOT, unary minus, string +), bare and
 //! suffixed names.  The expression text goes through the real parser; the parsed tree is what both the
@@ -198,6 +199,8 @@ struct Decl {
     shape: String,
     /// the parsed expression as the Lean driver reads it
     sexp: Option<String>,
+    /// length of the expression with every inlineable constant expanded (saturating)
+    inl_len: usize,
 }
 
 impl Decl {
@@ -245,23 +248,24 @@ fn render(e: &GE, mode: Mode, decls: &[Decl]) -> String {
 }
 
 fn inlined_len(e: &GE, decls: &[Decl]) -> usize {
-    match e {
+    let n = match e {
         GE::Lit(s) | GE::Raw(s) => s.len(),
         GE::Ref(i, _) => {
             let d = &decls[*i];
-            if d.natural && d.value().is_some() { 2 + inlined_len(&d.expr, decls) } else { d.name.len() + 1 }
+            if d.natural && d.value().is_some() { 2 + d.inl_len } else { d.name.len() + 1 }
         }
         GE::Neg(c) => 1 + inlined_len(c, decls),
         GE::Not(c) => 4 + inlined_len(c, decls),
         GE::Bin(op, l, r) => 2 + op.len() + inlined_len(l, decls) + inlined_len(r, decls),
         GE::Par(c) => 2 + inlined_len(c, decls),
-    }
+    };
+    n.min(1_000_000)
 }
 
 /// The constant disappears from the inlined program: accepted, stored value = folded value, and the
 /// expansion stays small.
-fn inlineable(d: &Decl, decls: &[Decl]) -> bool {
-    d.natural && d.value().is_some() && inlined_len(&d.expr, decls) <= INLINE_LIMIT
+fn inlineable(d: &Decl, _decls: &[Decl]) -> bool {
+    d.natural && d.value().is_some() && d.inl_len <= INLINE_LIMIT
 }
 
 const INT_LITS: [&str; 14] = ["0", "1", "2", "3", "7", "10", "100", "181", "182", "255", "256", "300", "32766", "32767"];
@@ -460,6 +464,7 @@ fn printed(program: &Program) -> (Vec<Expression>, Vec<Expression>) {
                 }
             }
             GlobalStatement::SubImplementation(sub) => print_exprs(&sub.body, &mut s),
+            GlobalStatement::FunctionImplementation(f) => print_exprs(&f.body, &mut s),
             _ => {}
         }
     }
@@ -557,9 +562,16 @@ fn show_fold(r: &Option<Result<Variant, LintError>>) -> Option<String> {
 
 struct Scenario {
     decls: Vec<Decl>,
+    /// the subprogram is a FUNCTION (else a SUB)
+    func: bool,
 }
 
 impl Scenario {
+    /// the statement that runs the subprogram
+    fn call(&self) -> String {
+        if self.func { "Z9% = S%".to_owned() } else { "S".to_owned() }
+    }
+
     fn accepted(&self, scope: Scope) -> Vec<&Decl> {
         self.decls.iter().filter(|d| d.scope == scope && d.value().is_some()).collect()
     }
@@ -592,7 +604,7 @@ impl Scenario {
             t.push_str(l);
             t.push('\n');
         }
-        t.push_str("SUB S\n");
+        t.push_str(if self.func { "FUNCTION S%\n" } else { "SUB S\n" });
         for d in self.accepted(Scope::Sub) {
             if mode == Mode::Named || !inlineable(d, &self.decls) {
                 t.push_str(&line(d));
@@ -608,7 +620,7 @@ impl Scenario {
             t.push_str(l);
             t.push('\n');
         }
-        t.push_str("END SUB\n");
+        t.push_str(if self.func { "END FUNCTION\n" } else { "END SUB\n" });
         t
     }
 
@@ -750,16 +762,16 @@ const HELPERS: &str = "SUB PI(x%)\nPRINT \"i\"; x%\nEND SUB\nSUB PD(x#)\nPRINT \
 fn main() {
     let mut rep = Report::new(
         "C14",
-        "one case = one generated CONST definition (expression over literals / earlier constants, name with or without suffix, global or SUB level) or one use of a constant; distinct by the parsed expression, suffix and visible constants; trivial: none",
+        "one case = one generated CONST definition (expression over literals / earlier constants, name with or without suffix, global or SUB / FUNCTION level) or one use of a constant; distinct by the parsed expression, suffix and visible constants; trivial: none",
     );
     let thorough = rep.is_thorough();
     let mut rng = Rng::from_env();
-    let scenarios = if thorough { 2400 } else { 170 };
+    let scenarios = if thorough { 2400 } else { 190 };
     let mut asks: Vec<Ask> = vec![];
     let mut inexact_candidates = 0u64;
 
     for sc_no in 0..scenarios {
-        let mut sc = Scenario { decls: vec![] };
+        let mut sc = Scenario { decls: vec![], func: sc_no % 3 == 2 };
         let mut names = Names { ix: HashMap::new() };
         let n_global = 4 + rng.below(5) as usize;
         let n_sub = 2 + rng.below(4) as usize;
@@ -822,7 +834,9 @@ fn main() {
                 natural: false,
                 shape: String::new(),
                 sexp: None,
+                inl_len: 0,
             };
+            d.inl_len = inlined_len(&d.expr, &sc.decls);
             let etext = render(&d.expr, Mode::Named, &sc.decls);
             let line = format!("CONST {} = {}", d.decl_name(), etext);
             let input = format!("{}{}", sc.program(Mode::Named, Some((&d, &line)), &[], &[], &[], &[]), "");
@@ -886,7 +900,7 @@ fn main() {
 
             let class = format!("{:?} {} {:?} {:?}", scope, d.sexp.clone().unwrap_or_default(), d.suffix.map(ty_name), env);
             rep.case(Some(class));
-            rep.bump(&format!("decl.{}.{}", if scope == Scope::Global { "global" } else { "sub" }, match &outcome {
+            rep.bump(&format!("decl.{}.{}", if scope == Scope::Global { "global" } else if sc.func { "function" } else { "sub" }, match &outcome {
                 Outcome::Ok(v) => format!("accepted.{}", tag_of(v).map(ty_name).unwrap_or("?")),
                 Outcome::Rejected(k) => format!("rejected.{}", k.split(' ').next().unwrap_or("")),
             }));
@@ -1041,7 +1055,7 @@ fn check_runtime_form(rep: &mut Report, sc: &Scenario, d: &Decl, etext: &str, sc
     };
     let (gx, sx) = match scope {
         Scope::Global => (vec![stmt.clone()], vec![]),
-        Scope::Sub => (vec!["S".to_owned()], vec![stmt.clone()]),
+        Scope::Sub => (vec![sc.call()], vec![stmt.clone()]),
     };
     let rejected_kind = match &d.outcome {
         Outcome::Rejected(k) => Some(k.clone()),
@@ -1277,7 +1291,7 @@ fn metamorphic(rep: &mut Report, sc: &Scenario) {
             }
         }
         let head = vec!["ON ERROR GOTO H".to_owned()];
-        let mut tail = vec!["S".to_owned(), "END".to_owned(), "H:".to_owned(), "PRINT \"E\"; ERR".to_owned(), "RESUME NEXT".to_owned()];
+        let mut tail = vec![sc.call(), "END".to_owned(), "H:".to_owned(), "PRINT \"E\"; ERR".to_owned(), "RESUME NEXT".to_owned()];
         tail.push(HELPERS.trim_end().to_owned());
         progs.push(sc.program(mode, None, &gx, &sx, &head, &tail));
     }
